@@ -43,5 +43,13 @@ def singularNameSuffix : List Char := [Char.ofNat 73, Char.ofNat 116, Char.ofNat
 def moduleDupSuffix : List Char := [Char.ofNat 77, Char.ofNat 111, Char.ofNat 100, Char.ofNat 101, Char.ofNat 108] /- 'Model' -/
 def specialPrefix : List Char := [Char.ofNat 102, Char.ofNat 105, Char.ofNat 101, Char.ofNat 108, Char.ofNat 100] /- 'field' -/
 def emptyFieldName : List Char := [Char.ofNat 95] /- '_' -/
+/-- `reference.ID_PATTERN.pattern`: the regular expression that recognises an `$id`/anchor reference -/
+def idPattern : List Char := [Char.ofNat 94, Char.ofNat 35, Char.ofNat 91, Char.ofNat 94, Char.ofNat 47, Char.ofNat 93, Char.ofNat 46, Char.ofNat 42] /- '^#[^/].*' -/
+/-- `reference.ID_PATTERN.flags` (32 = `re.UNICODE`, what `re.compile` gives a `str` pattern without flags) -/
+def idPatternFlags : Nat := 32
+/-- every read of the name `ID_PATTERN` in src/: `file:scope:expression` -/
+def idPatternUses : List (List Char) := [
+  [Char.ofNat 114, Char.ofNat 101, Char.ofNat 102, Char.ofNat 101, Char.ofNat 114, Char.ofNat 101, Char.ofNat 110, Char.ofNat 99, Char.ofNat 101, Char.ofNat 46, Char.ofNat 112, Char.ofNat 121, Char.ofNat 58, Char.ofNat 77, Char.ofNat 111, Char.ofNat 100, Char.ofNat 101, Char.ofNat 108, Char.ofNat 82, Char.ofNat 101, Char.ofNat 115, Char.ofNat 111, Char.ofNat 108, Char.ofNat 118, Char.ofNat 101, Char.ofNat 114, Char.ofNat 46, Char.ofNat 114, Char.ofNat 101, Char.ofNat 115, Char.ofNat 111, Char.ofNat 108, Char.ofNat 118, Char.ofNat 101, Char.ofNat 95, Char.ofNat 114, Char.ofNat 101, Char.ofNat 102, Char.ofNat 58, Char.ofNat 73, Char.ofNat 68, Char.ofNat 95, Char.ofNat 80, Char.ofNat 65, Char.ofNat 84, Char.ofNat 84, Char.ofNat 69, Char.ofNat 82, Char.ofNat 78, Char.ofNat 46, Char.ofNat 109, Char.ofNat 97, Char.ofNat 116, Char.ofNat 99, Char.ofNat 104, Char.ofNat 40, Char.ofNat 106, Char.ofNat 111, Char.ofNat 105, Char.ofNat 110, Char.ofNat 101, Char.ofNat 100, Char.ofNat 95, Char.ofNat 112, Char.ofNat 97, Char.ofNat 116, Char.ofNat 104, Char.ofNat 41] /- reference.py:ModelResolver.resolve_ref:ID_PATTERN.match(joined_path) -/
+]
 
 end Dcg.Gen.ResolverTables
